@@ -45,7 +45,7 @@ Proof. reflexivity. Qed.
 Lemma ask_same w mk w1 ok :
   ask w mk = (w1, ok) -> q_same w w1 /\ failed w1 = refused (mk ok) || failed w.
 Proof.
-  unfold ask. destruct (w_sched w) as [|b r]; intros [= <- <-]; (split; [apply q_same_refl|reflexivity]).
+  unfold ask. destruct (w_sched w) as [|b r]; intros [= <- <-]; (split; [unfold q_same; cbn; auto|reflexivity]).
 Qed.
 
 (* ------------------------------------------------------------------ a_que_new_, a_que_die_ *)
